@@ -24,5 +24,44 @@ GROUP = {
           slice=r"(if paths\.is_empty\(\) \{\s*return Err\()", slice_count=1, slice_template="/* anchor: {EXPR} */\n"),
         U("anchor:other entries go to the callback", LD, LI, no_canary=True,
           slice=r"(_ => callback\(&path, &ctx, &entry\),)", slice_count=1, slice_template="/* anchor: {EXPR} */\n"),
+        # ---- which path an `include` line means: relative to the INCLUDING file (slice of load_impl over an assumed model of std::path)
+        ("raw", """
+// ASSUMED model of std::path / OsString: a path is its text; parent() drops the last component; join() appends a (relative) path
+#[verifier::external_body] pub struct Path { _p: usize }
+#[verifier::external_body] pub struct PathBuf { _p: usize }
+#[verifier::external_body] pub struct OsString { _p: usize }
+pub uninterp spec fn parent_of(p: Seq<char>) -> Option<Seq<char>>;
+pub uninterp spec fn joined(dir: Seq<char>, rel: Seq<char>) -> Seq<char>;
+pub uninterp spec fn is_unicode(p: Seq<char>) -> bool;
+impl Path {
+    pub uninterp spec fn text(&self) -> Seq<char>;
+    #[verifier::external_body] pub fn parent(&self) -> (r: Option<&Path>) ensures r is Some <==> parent_of(self.text()) is Some, r matches Some(d) ==> d.text() == parent_of(self.text())->Some_0 { unimplemented!() }
+    #[verifier::external_body] pub fn join(&self, rel: PathBuf) -> (r: PathBuf) ensures r.text() == joined(self.text(), rel.text()) { unimplemented!() }
+    #[verifier::external_body] pub fn to_owned(&self) -> (r: PathBuf) ensures r.text() == self.text() { unimplemented!() }
+}
+impl PathBuf {
+    pub uninterp spec fn text(&self) -> Seq<char>;
+    #[verifier::external_body] pub fn into_os_string(self) -> (r: OsString) ensures r.text() == self.text() { unimplemented!() }
+}
+impl OsString {
+    pub uninterp spec fn text(&self) -> Seq<char>;
+    #[verifier::external_body] pub fn into_string(self) -> (r: Result<String, OsString>) ensures r is Ok <==> is_unicode(self.text()), r matches Ok(s) ==> s@ == self.text() { unimplemented!() }
+}
+pub enum LoadError { RootLoadingPath(PathBuf), InvalidUnicodePath(String) }
+#[verifier::external_body] pub fn opaque_string() -> String { unimplemented!() }
+"""),
+        U("callsite:load_impl.include_target", LD, LI, fn="include_target", no_canary=True,
+          slice=r"let target: String = (path\s*\.as_ref\(\)[\s\S]*?\}\)\?);", slice_count=1, slice_raw=True,
+          rewrites=[("R17-free-var", "re:path\\s*\\.as_ref\\(\\)", "path", None),
+                    ("R11-ctor-as-fn", "re:\\.ok_or_else\\(\\|\\| LoadError::RootLoadingPath\\(path\\.to_owned\\(\\)\\)\\)", ".ok_or(LoadError::RootLoadingPath(path.to_owned()))", 1),
+                    ("R4-format", "re:\\.map_err\\(\\|x\\| \\{\\s*LoadError::InvalidUnicodePath\\([^;]*?\\)\\s*\\}\\)", ".map_err(|x: OsString| -> (e: LoadError) { LoadError::InvalidUnicodePath(opaque_string()) })", 1)],
+          slice_template="""fn include_target(path: &Path, include_path: PathBuf) -> (r: Result<String, LoadError>)
+    ensures
+        // C11: the path of an `include` line is taken relative to the INCLUDING file: its directory joined with the written path
+        parent_of(path.text()) matches Some(dir) ==> (match r { Ok(t) => t@ == joined(dir, include_path.text()), Err(_) => !is_unicode(joined(dir, include_path.text())) }),   // @load_impl.include_path_is_relative_to_the_including_file
+        parent_of(path.text()) is None ==> r is Err,
+{
+    Ok({EXPR})
+}"""),
     ],
 }
